@@ -56,6 +56,7 @@ def run(ctx):
                    "a word length is used as divisor without a dominating non-zero test: the operation panics on the empty word instead of returning a (reduced) word", b.span_of(bi))
     ctx.floor("divisions by a word length in free_words", nd, 1)
     ordering(ctx, ctx.facts.getters())
+    word_operations(ctx, ctx.facts.getters())
     # ---- all rotations and their inverses (T4): relator_permutations / relator_representative
     ctx.clauses.append("relator permutation set / representative range over all rotations 0..len() and both the rotation and its inverse (T4)")
     gg = ctx.facts.getters()
@@ -210,6 +211,72 @@ def ordering(ctx, g):
                         bad = "the letter order is not transitive: %d < %d < %d but not %d < %d" % (x, y, z, x, z)
     ctx.ob("T9-ordering", b.name, "letter order", "ok" if not bad else "violation",
            "the letter comparison is a strict total order on the 6 letters -3..3 (36 pairs, 216 triples); a decision is taken exactly at a difference" if not bad else bad)
+
+
+def word_operations(ctx, g):
+    """shape of the word operations (each result passes through FreeWord::new / the reducing product, which T1 decides separately):
+    inverse = the letters in reverse order, each negated; w^m for m >= 0 = the m-fold product empty * w * .. * w, for m < 0 = (w^-1)^(-m);
+    commutator = w v w^-1 v^-1; rotated(i) = letters i.. followed by letters ..i with i = i mod len (the empty word rotates to itself)"""
+    ctx.clauses.append("inverse / power / commutator / rotation have their defining shape (T9)")
+    W = "fpgroups::free_words::FreeWord::"
+    b = ctx.body(W + "inverse")
+    ctx.scan(ctx.facts.with_closures(b.name))
+    me = ("param", 1, b.debug.get(1, ""))
+    r = norm(b.local_origin(0), g)
+    oki = is_call(r, W + "new")
+    if oki:
+        a = strip(r[2][0])
+        res = closure_result(ctx.facts, a[2][1], g) if is_call(a, "Iterator::map") else None
+        oki = is_call(a, "Iterator::map") and is_call(strip(a[2][0]), "Iterator::rev") and contains(a[2][0], lambda y: y == ("field", me, "w")) and \
+            res is not None and ((res[0] == "unop" and res[1] == "Neg") or is_call(res, "Neg::neg")) and contains(res, lambda y: y[0] == "param" and y[1] == 2)
+    ctx.ob("T9-word-operations", b.name, "inverse", "ok" if oki else "violation",
+           "inverse = new(w.iter().rev().map(|x| -x))" if oki else "inverse is not the reversed word with every letter negated: " + show(r, 1)[:90])
+    b = ctx.body(W + "raised_to")
+    ctx.scan(ctx.facts.with_closures(b.name))
+    me, m_ = ("param", 1, b.debug.get(1, "")), ("param", 2, b.debug.get(2, ""))
+    okneg = okpos = False
+    for dbb, d in b.all_defs_origins(0):
+        d = norm(d, g)
+        fa = [atom_norm(x, g) for x in b.facts_at(dbb)]
+        if is_call(d, W + "raised_to"):
+            okneg = strip(d[2][0]) == ("call", W + "inverse", (me,)) and strip(d[2][1]) in (("unop", "Neg", m_), ("call", "std::ops::Neg::neg", (m_,))) and any(implies(x, ("rel", "Lt", m_, ("int", 0))) for x in fa if x[0] == "rel")
+        if is_call(d, "Iterator::fold"):
+            rng = strip(d[2][0])
+            res = closure_result(ctx.facts, d[2][2], g)
+            okpos = rng[0] == "agg" and rng[1].endswith("ops::Range::Range") and [strip(x) for x in rng[2]] == [("int", 0), m_] and is_call(strip(d[2][1]), W + "empty") and \
+                res is not None and is_call(res, "Mul::mul") and strip(res[2][0])[:2] == ("param", 2) and strip(res[2][1]) in (("field", ("param", 1, ""), "0"), me)
+    ctx.ob("T9-word-operations", b.name, "raised_to", "ok" if okneg and okpos else "violation",
+           "w^m = fold of m products from the empty word; negative exponents go through the inverse" if okneg and okpos else
+           "raised_to is not ((0..m).fold(empty, |a, _| a * w), and inverse().raised_to(-m) for m < 0): negative branch ok %s, non-negative branch ok %s" % (okneg, okpos))
+    b = ctx.body(W + "commutator")
+    me, ot = ("param", 1, b.debug.get(1, "")), ("param", 2, b.debug.get(2, ""))
+    r = norm(b.local_origin(0), g)
+    mul = lambda x, y: ("call", "std::ops::Mul::mul", (x, y))
+    want = mul(mul(mul(me, ot), ("call", W + "inverse", (me,))), ("call", W + "inverse", (ot,)))
+    flat = lambda t: map_term(t, lambda x: (x[0], x[1], tuple(strip(a) for a in x[2])) if x[0] == "call" else None)
+    okc = flat(r) == want
+    ctx.ob("T9-word-operations", b.name, "commutator", "ok" if okc else "violation", "[w, v] = w v w^-1 v^-1" if okc else "commutator is " + show(r, 1)[:90])
+    b = ctx.body(W + "rotated")
+    me = ("param", 1, b.debug.get(1, ""))
+    okr = okr0 = False
+    for dbb, d in b.all_defs_origins(0):
+        d = norm(d, g)
+        fa = [atom_norm(x, g) for x in b.facts_at(dbb)]
+        if strip(d) == me or (is_call(d, "Clone::clone") and strip(d[2][0]) == me):
+            okr0 = any(x[0] == "rel" and x[1] == "Eq" and x[3] == ("int", 0) for x in fa)
+        if is_call(d, W + "new"):
+            a = strip(d[2][0])
+            names = [x[1].split("::")[-1] for x in subterms(a) if x[0] == "call"]
+            sk = [x for x in subterms(a) if is_call(x, "Iterator::skip")]
+            tk = [x for x in subterms(a) if is_call(x, "Iterator::take")]
+            ch = [x for x in subterms(a) if is_call(x, "Iterator::chain")]
+            okr = len(sk) == 1 and len(tk) == 1 and len(ch) >= 1 and strip(sk[0][2][1]) == strip(tk[0][2][1]) and any(is_call(x, "rem_euclid") for x in subterms(sk[0][2][1]))
+            if okr:
+                # skip(i) comes first: the chain whose first operand contains the skip and whose second contains the take
+                okr = any(contains(c[2][0], lambda y: y == sk[0]) and contains(c[2][1], lambda y: y == tk[0]) for c in ch)
+    ctx.ob("T9-word-operations", b.name, "rotated", "ok" if okr and okr0 else "violation",
+           "rotated(i) = new(w[i..] ++ w[..i]) with i reduced modulo len; the empty word is returned as it is" if okr and okr0 else
+           "rotated is not (letters from i on, then the first i letters, i mod len, empty word unchanged): rotation branch ok %s, empty branch ok %s" % (okr, okr0))
 
 
 def check_normalized(ctx, nb):
